@@ -168,9 +168,16 @@ Definition crash_state (s : st) (k : nat) (part : option nat) : option fs :=
   end.
 
 (* operations of a history *)
-Inductive op := Open (p : path) (m : mode) (d : bytes) | Close.
+Inductive op := Open (p : path) (m : mode) (d : bytes) | Close
+  | Vanish (i : nat).       (* fault: the temporary file of the i-th pending entry disappears (tmp cleaner, other process) *)
 Definition do_op (s : st) (o : op) : st :=
-  match o with Open p m d => fst (do_open s p m d) | Close => do_close s end.
+  match o with
+  | Open p m d => fst (do_open s p m d)
+  | Close => do_close s
+  | Vanish i => match nth_error (pending s) i with
+                | Some e => {| user := user s; tmpf := tdel (tmpf s) (e_tmp e); pending := pending s; next := next s |}
+                | None => s end
+  end.
 Definition run_ops (s : st) (os : list op) : st := fold_left do_op os s.
 
 (* end of bin/martinize2:entry (l.1165-1177): finalise only when nothing is left *)
